@@ -7,6 +7,7 @@ import Driver.BlockAlloc
 import Driver.EventQueue
 import Driver.Dispatch
 import Driver.VMOps
+import Driver.Target
 
 def main (args : List String) : IO UInt32 := do
   match args with
@@ -19,4 +20,5 @@ def main (args : List String) : IO UInt32 := do
   | ["eventqueue"] => Driver.EventQueue.main; return 0
   | ["dispatch"] => Driver.Dispatch.main; return 0
   | ["vmops"] => Driver.VMOps.main; return 0
+  | ["target"] => Driver.Target.main; return 0
   | _ => IO.eprintln "usage: driver <area>"; return 2
